@@ -28,6 +28,7 @@ import time
 sys.path.insert(0, os.path.join(os.path.dirname(os.path.abspath(__file__)), "..", "lib"))
 from vlib import MachineryError, main, tree_hash, write_files, REPO, GO_SUM_MOD  # noqa: E402
 import pipetrace  # noqa: E402
+import runtrace  # noqa: E402
 
 MOD = "example.com/w"
 FILES = ["f1", "f2", "f3"]
@@ -419,6 +420,11 @@ class Replayer:
         before, mbefore = tree_hash(d), modes(d)
         r = pipetrace.run(ctx, d, env=USER_ENV, fail=failspec)
         after, mafter = tree_hash(d), modes(d)
+        # files whose content differs afterwards, spelled the way the hooks spell output paths (relative to the working
+        # directory in the "sep" layout, absolute otherwise): input of the run-level clause only-written-files-changed
+        r.changed = [rel if prof["layout"] == "sep" else str(d / rel)
+                     for rel in sorted(set(before) | set(after))
+                     if before.get(rel) != after.get(rel) and before.get(rel) != "DIR" and after.get(rel) != "DIR"]
         with self.runlock:
             self.runs.append((r, item["id"]))
         out = []
@@ -702,6 +708,22 @@ def run(ctx):
         ev = x["event"]
         ctx.violation({"kind": "trace-rejected", "why": x["why"][0], "ev": ev["ev"]},
                       {"case": labels[x["index"]], "why": x["why"], "event": ev, "at": x["at"], "projected_trace": x["events"]})
+    # the root run-level trace specification (spec/MockeryTrace.tla) over the complete event stream of the same runs
+    tp = time.time()
+    rsel = list(range(len(runs))) if thorough or len(runs) <= 400 else sorted(rng.sample(range(len(runs)), 400))
+    rrej = runtrace.validate_runs(ctx, [runs[k] for k in rsel])
+    phase["run_trace_validation"] = round(time.time() - tp, 1)
+    own, other = runtrace.mine(rrej, "C10")
+    for x in own:
+        ctx.violation({"kind": "run-trace-rejected", "why": x["why"][0]},
+                      {"case": labels[rsel[x["index"]]], "why": x["why"], "at": x["at"], "event": x["event"], "events": x["events"]})
+    for x in other:
+        ctx.note(f"run-trace clause of {x['props']} rejected a run: {x['why']}")
+    for dn in rrej.drift[:5]:
+        ctx.note("drift: " + ", ".join(dn["why"]))
+    ctx.cov["traces_validated_against_impl"] += rrej.validated
+    ctx.cov["run_traces_validated"] = rrej.validated
+    ctx.cov["run_trace_events_states"] = rrej.tlc_states
     if rej.drift:
         kinds = sorted({wname for dnote in rej.drift for wname in dnote["why"]})
         ctx.note(f"drift: {len(rej.drift)} run(s) accepted by the contract but not shaped like Pipeline.tla's code layer: {kinds}")
